@@ -301,4 +301,11 @@ PROPS['C17']['explanation'] = PROPS['C17']['explanation'].replace('Partial, name
     '(method, URL shape) of end-1..end-10 with the specified handler; C17_specification_within_the_table_except_end5 - every specified (method, shape) has its route and handler in the table except end-5; '
     'C17_one_route_per_method_and_template. Partial, named: that the template written for each URL shape (shape_template) reads URLs as the specification\'s URL decomposition does (oracle: spec_handler over readings on every generated method x URL; ')
 
+PROPS['C17']['explanation'] = PROPS['C17']['explanation'].replace('Partial, named: that the template written for each URL shape (shape_template) reads URLs as the specification\'s URL decomposition does (oracle: spec_handler over readings on every generated method x URL; ',
+    'WHICH URLS ARE ROUTED (Proofs/OciSemP.v, closed, every URL and every HTTP method): C17_routed_iff_specified - the model router of method m routes a URL iff end-1..end-10 define an endpoint of m whose URL has that shape, '
+    'written declaratively (url_shape: "/v2", or "/v2/" name "/blobs/" digest, "/manifests/" reference, "/blobs/uploads", "/blobs/uploads/" reference, "/tags/list", each with at most one trailing "/", name accepted by the name grammar, '
+    'last token non-empty without "/") - end-5 only if the example registers it; C17_routed_url_reaches_the_specified_handler - the match carries the handler the specification names for that endpoint and the name / last token verbatim as parameters. '
+    'Proof: fits read left to right over the six templates (fits_shape), the stored routes are the expansions of the table slice of the method, the table is within the specification. Partial, named: that the executable oracle '
+    '`readings` (used to judge the REAL example on generated URLs) decomposes URLs exactly as url_shape does is not a theorem (two independent writings of the same specification; ')
+
 NOT_APPLICABLE = {}
